@@ -38,6 +38,7 @@ pub fn simple_spec(rules: Vec<(Re, Option<Re>)>, named: bool, lets: Vec<(String,
         vis: "pub".into(),
         items,
         paren: ParenStyle::Full,
+        stateless: false,
     }
 }
 
@@ -240,10 +241,39 @@ impl Prop for C02 {
         // also as the operands of `#`), written as one flat `a | b | c | …` chain
         let starts = ['0', 'a', 'A', 'q', 'α', '!'];
         let kw = proptest::collection::vec(proptest::sample::select(vec!['a', 'b', 'c', 'd', 'e']), 1..=4);
-        for i in 0..tier.pick(100, 500) {
+        for i in 0..tier.pick(120, 600) {
             let t = sample(&tapes, r);
             let mut tp = gen::Tape::new(&t);
-            let mut spec = match i % 5 {
+            let mut spec = match i % 6 {
+                5 => {
+                    // a bracket set whose later item starts inside one earlier range and ends
+                    // inside another one, with uncovered code points in between; items in every
+                    // order; sometimes a fourth item
+                    let base = ['a' as u32, '0' as u32, 0x3b1][tp.next(3) as usize];
+                    let w1 = 1 + tp.next(4);
+                    let gap = 2 + tp.next(8);
+                    let w2 = 1 + tp.next(4);
+                    let r1 = (base, base + w1);
+                    let r2 = (base + w1 + gap, base + w1 + gap + w2);
+                    let bridge = (r1.0 + tp.next(w1 + 1), r2.0 + tp.next(w2 + 1));
+                    let ch = |v: u32| char::from_u32(v).unwrap_or('a');
+                    let mut items = vec![SetItem::R(ch(r1.0), ch(r1.1)), SetItem::R(ch(r2.0), ch(r2.1)), SetItem::R(ch(bridge.0), ch(bridge.1))];
+                    if tp.next(3) == 0 {
+                        items.push(SetItem::C(ch(r2.1 + 2)));
+                    }
+                    let rot = tp.next(items.len() as u32) as usize;
+                    items.rotate_left(rot);
+                    if tp.next(2) == 0 {
+                        items.swap(0, 1);
+                    }
+                    let class = Re::Set(items);
+                    let rules = match tp.next(3) {
+                        0 => vec![(plus(class), None), (Re::Any, None)],
+                        1 => vec![(cat(Re::Char('x'), star(class)), None), (Re::Any, None)],
+                        _ => vec![(class, None), (Re::Any, None)],
+                    };
+                    ("bridged-ranges", simple_spec(rules, i % 4 < 2, vec![]))
+                }
                 4 => {
                     // classes with 33-90 pieces (beyond any size gate of the range maps and of
                     // the subset construction), united with / followed by a perturbed copy whose
@@ -369,6 +399,9 @@ impl Prop for C02 {
                 1 => s.paren = oracle::spec::ParenStyle::Minimal,
                 2 => s.paren = oracle::spec::ParenStyle::Redundant((k as u64).wrapping_mul(0x9E37_79B9_7F4A_7C15)),
                 _ => {}
+            }
+            if k % 4 == 3 && s.can_be_stateless() {
+                s.stateless = true;
             }
         }
         out
@@ -704,7 +737,7 @@ impl Prop for C11b {
                 // start inside / end beyond the left operand's ranges
                 let t = sample(&tapes, r);
                 let big = gen::many_piece_set(&t, 16 + i % 9);
-                if let Some(bc) = big.class() {
+                if let Some(bc) = big.class().filter(|bc| bc.0.len() > 3) {
                     let mut tp = gen::Tape::new(&t);
                     let k = tp.next(bc.0.len() as u32 - 3) as usize;
                     let ch = |v: u32| char::from_u32(v).unwrap_or('a');
